@@ -33,9 +33,17 @@ pub fn gen_case(rng: &mut Rng, thorough: bool) -> J {
     let d0 = if rng.chance(1, 3) { 1 } else { 0 };
     let spec = spec::Spec(gen_spec(rng, &cfg, d0));
     let n_ops = if thorough { 10 + rng.below(40) } else { 4 + rng.below(12) };
-    let init = if rng.chance(1, 2) { spec.initial_value() } else { value::Value(gen_value(rng, &spec.0, &cfg)) };
+    let mut init = if rng.chance(1, 2) { spec.initial_value() } else { value::Value(gen_value(rng, &spec.0, &cfg)) };
+    // the end of the key space: now and then a root-level map holds the key usize::MAX (a valid key of a guess)
+    if rng.chance(1, 60) {
+        if let value::Node::AnonMap(m) = &mut init.0 {
+            if let Some(k) = m.keys().copied().max() { if let Some(v) = m.remove(&k) { m.insert(usize::MAX, v); } }
+        }
+    }
     let mut path_ctx = PathContext::default();
-    path_ctx.add_nodes_for(&init);
+    if let Err(e) = catch_unwind(AssertUnwindSafe(|| path_ctx.add_nodes_for(&init))) {
+        return json!({"mode": "ops", "spec": enc_spec(&spec.0), "init": enc_value(&init.0), "ops": [], "runPanic": panic_msg(e)});
+    }
     let crossover = Crossover::new();
     let mut pool: Vec<value::Value> = vec![init.clone()];
     let mut ops: Vec<J> = Vec::new();
